@@ -32,7 +32,7 @@ REAL = ["bec2format.bf3file / bec2file (writer and reader)", "bec2format.bytes_r
         "register_crypto_plugin (AES adapter, ECC proxies)", "pyaes", "ecdsa (ECC blocks)"]
 STUBS = ["medium: SimFS (crash points, torn writes)", "RNG: SimRng behind register_random_bytes / "
          "os.urandom shims", "RefDir (locates fields; never judges)"]
-PROBES = ["concurrent-readers", "cut-drops-only-zero-bytes", "cut-inside-hex-pair", "cut-splits-crlf", "cut-inside-dir-size",
+PROBES = ["payload-64k-or-more", "concurrent-readers", "cut-drops-only-zero-bytes", "cut-inside-hex-pair", "cut-splits-crlf", "cut-inside-dir-size",
           "cut-in-comment-header", "cut-after-signature", "damage-accepted-equal",
           "crash-simulated-equals-prefix", "rep-in-length-field", "bec2-header-damage",
           "keybit-on-empty-file"]
@@ -57,6 +57,15 @@ def gen(st, tier):
         spec.update(conc=True, preempt=pre, choices=ch,
                     victim=f.choice([["rep", f.random(), f.choice(CLASSES)], ["keybit", f.randrange(128)]]),
                     other=f.choice(["nocheck", "nocheck", "otherkey-nocheck", "plain"]))
+        return spec
+    if w.random() < 0.004:
+        # a firmware-sized payload (>= 64 KiB): reads cost about a second, so only a handful of faults
+        big = {"desc": [[0xC3, "02"]], "blob": {"len": w.randint(65536, 66600), "fill": "rand", "tail0": 0,
+                                                "s": w.getrandbits(32)}, "alen": None, "enc": False}
+        spec = {"kind": "bf3", "obj": {"comments": [], "components": [big]}, "via": "stream", "rng": 1,
+                "key": G.session_key_spec(w), "bigfile": True}
+        spec["faults"] = [["rep", ["frac", 0.05 + 0.9 * f.random()], f.choice(CLASSES)] for _ in range(6)] + [
+            ["cut_bin", ["end", 0]], ["cut_bin", ["frac", f.random()]], ["cut_text", ["frac", f.random()]]]
         return spec
     spec = files.file_spec(w, max_len=200 if tier == "quick" else 120)
     if tier == "thorough":
@@ -236,6 +245,8 @@ def run(case):
             out.probes["baseline-unreadable"] += 1
             return out
         out.ev("file", kind, len(orig), len(binary), len(info["entries"]))
+        if case.get("bigfile"):
+            out.probes["payload-64k-or-more"] += 1
         faults = case["faults"]
         if faults == "all":
             faults = _all_faults(len(orig), len(binary), kind)
